@@ -260,6 +260,24 @@ def run_case(case):
                     n_err += 1
                 except Exception as e:  # noqa: BLE001
                     return dict(status="violation", kind="error-path", detail=f"{where}: empty directory -> {type(e).__name__}: {str(e)[:150]}")
+        if case["errors"] and steps:
+            # an explicitly chosen step for which no completed checkpoint exists (beyond the run, or pruned / never
+            # saved between two retained steps): anything but that step's state is wrong - the call must fail
+            now = ckpt.listing(D) or []
+            missing = [max(now) + 1] + [k_ for k_ in range(min(now) + 1, max(now)) if k_ not in now][:1]
+            for ms in missing:
+                try:
+                    if has_cfg:
+                        rr = cls.restore(D, step=ms, new_checkpoint_dir=os.path.join(base, f"missing{ms}"))
+                    else:
+                        rr = target.make_solver(sv, problem, **{**kw, "checkpoint_dir": os.path.join(base, f"missing{ms}")})
+                        rr.load_checkpoint(D, step=ms)
+                except Exception:  # noqa: BLE001  (the documented behaviour is an error; its type is the checkpoint library's)
+                    n_err += 1
+                    continue
+                return dict(status="violation", kind="missing-step",
+                            detail=f"{where}: step {ms} was requested explicitly, the directory holds {now}: instead of failing, the call "
+                                   f"returned a solver at iteration {int(rr.iteration)}")
         ovc = "+".join(k_ for k_ in ("newdir", "f", "m") if case["ov"][k_]) + ("+async" if case["ov"]["asyn"] is not None else "")
         return dict(status="ok", n_obs=n_cmp, error_paths=n_err,
                     cls=[sv, case.get("name", "tabular"), "restore" if has_cfg else "load_checkpoint", ovc or "none"])
